@@ -216,3 +216,10 @@ func VerifPullTwin() {
 	verifConnectFails = false
 	symapi.Assert(c.Open() == nil, "twin-open-succeeds-despite-404")
 }
+
+// twin with native replay: claims a double slash in the SETUP URL
+func VerifSetupURLTwin() {
+	c, _ := NewPullClient("/pull/a", "rtsp://cam/live/")
+	u, _ := c.getSetupURL(symapi.String("ctrl", 1) + "x")
+	symapi.Assert(u.Path[len("/live/")] == '/', "twin-double-slash")
+}
